@@ -27,6 +27,13 @@ def make_headers(spec: dict[str, typing.Any]) -> typing.Any:
     pairs = [tuple(p) for p in spec["pairs"]]
     if spec["container"] == "dict":
         return dict(pairs)
+    if spec["container"] == "chainmap":
+        # a layered mapping (request-specific entries over an application-wide base): pop() on it only sees the first layer
+        import collections
+
+        seen: set[str] = set()
+        uniq = [p for p in pairs if not (p[0].lower() in seen or seen.add(p[0].lower()))]
+        return collections.ChainMap(dict(uniq[:1]), dict(uniq[1:]))
     hd = HTTPHeaderDict()
     for k, v in pairs:
         hd.add(k, v)
@@ -38,7 +45,7 @@ def run_case(rec: Recorder, case: dict[str, typing.Any]) -> None:
     from urllib3.exceptions import HostChangedError, HTTPError
     from urllib3.util import Retry
 
-    graph_case = {"hops": case["hops"], "loop": False, "method": case["method"], "client": case["client"], "policy_req": None, "policy_lvl2": None}
+    graph_case = {"hops": case["hops"], "loop": False, "method": case["method"], "client": case["client"], "policy_req": None, "policy_lvl2": None, "start_origin": case.get("start_origin", "A")}
     start, routes, walk = c05.build_graph(graph_case)
     server = redirnet.RedirServer(routes, fail_first=int(case.get("fail_first", 0)))
     strip_cfg = case.get("strip")  # None = default set
@@ -150,6 +157,12 @@ def run_case(rec: Recorder, case: dict[str, typing.Any]) -> None:
                 if got != want:
                     rec.fail(case, "other-header-lost-or-altered", dict(obs, header=name, hop=j, got=seen.get(name)), f"request #{j}: header {name} is {seen.get(name)!r}, caller supplied {vals!r}")
                     return
+        if crossed and case["headers_at"] == "request-over-sensitive-defaults":
+            # the manager's own sensitive defaults were never part of this request: they must not appear on it either
+            for k, vs in seen.items():
+                if any("manager-default-secret" in v or "default=1" in v for v in vs):
+                    rec.fail(case, "sensitive-header-forwarded", dict(obs, header=k, hop=j, to=entry["origin"], manager_default=True), f"request #{j} to {entry['origin']} carries the manager's default {k}: {vs!r} after a cross-origin redirect")
+                    return
         if case["client"] == "proxy" and entry.get("via_proxy") is None and "proxy-authorization" in seen and not any(k.lower() == "proxy-authorization" for k, _ in supplied):
             rec.fail(case, "proxy-header-inside-tunnel", dict(obs, hop=j), "proxy_headers reached the origin inside the tunnel")
             return
@@ -247,8 +260,8 @@ def random_case(rng: typing.Any) -> dict[str, typing.Any]:
     if rng.random() < 0.35:
         strip = rng.choice([["X-Api-Key"], ["x-api-key", "Authorization"], ["X-API-KEY"], []])
         pairs.append([rng.choice(CUSTOM), "key-123"])
-    container = rng.choice(["dict", "hd", "hd-repeated"])
-    if container == "dict":
+    container = rng.choice(["dict", "hd", "hd-repeated", "chainmap"])
+    if container in ("dict", "chainmap"):
         seen = set()
         pairs = [p for p in pairs if not (p[0].lower() in seen or seen.add(p[0].lower()))]
     elif container == "hd-repeated":
@@ -326,15 +339,17 @@ def run_shard(ctx: Ctx, rec: Recorder) -> None:
         for code in (301, 302, 303, 307, 308):
             for pairs in ([["Authorization", "secret"]], [["authorization", "secret"], ["Cookie", "a=b"]], [["Cookie", "a=b"]], [["Proxy-Authorization", "x"], ["Authorization", "secret"]]):
                 for container in ("dict", "hd"):
-                    for hops_to in (["B"], ["A", "B"], ["B", "C"]):
-                        idx += 1
-                        if not ctx.mine(idx):
-                            continue
-                        hops = [{"code": code, "to": t, "form": "absolute"} for t in hops_to]
-                        case = {"client": client, "hops": hops, "method": "GET", "headers": {"container": container, "pairs": pairs}, "headers_at": "request-over-sensitive-defaults", "strip": None, "policy_at": "none", "fail_first": 0}
-                        rec.case(["sens-defaults", client, code, pairs, container, hops_to])
-                        rec.mon("sensitive_only_over_defaults")
-                        run_case(rec, case)
+                    # (chains that pass through an https origin - a CONNECT tunnel behind the proxy - and come back to http)
+                    for start_origin, hops_to in (("A", ["B"]), ("A", ["A", "B"]), ("A", ["B", "C"]), ("A", ["C", "B"]), ("C", ["B"]), ("D", ["A"]), ("D", ["B", "C"]), ("C", ["C", "A2"])):
+                        for headers_at in ("request-over-sensitive-defaults", "manager"):
+                            idx += 1
+                            if not ctx.mine(idx):
+                                continue
+                            hops = [{"code": code, "to": t, "form": "absolute"} for t in hops_to]
+                            case = {"client": client, "hops": hops, "method": "GET", "headers": {"container": container, "pairs": pairs}, "headers_at": headers_at, "strip": None, "policy_at": "none", "fail_first": 0, "start_origin": start_origin}
+                            rec.case(["sens-defaults", client, code, pairs, container, start_origin, hops_to, headers_at])
+                            rec.mon("sensitive_only_over_defaults")
+                            run_case(rec, case)
     n = ctx.pick(5000, 150000)
     for i in range(n):
         if ctx.out_of_time(0.9):
